@@ -165,7 +165,7 @@ def equiv_batches(cat, chk):
             batch(uniq, 0, "routes:" + g)
     # values of different classes against each other
     allt = [t for g, ts in cat.groups.items() if g != "big" for t in ts]
-    for _ in range(60 if chk.thorough else 12):
+    for _ in range(200 if chk.thorough else 12):
         mem = []
         for t in rng.sample(allt, 9):
             mem.append((t, rng.randrange(len(t.routes))))
@@ -663,7 +663,7 @@ KEYED_TAGS = ("ref:", "ref-thunk:", "ref-default:", "exists:", "set:", "delete:"
 
 
 def map_phase(chk, build, sc, cat, good):
-    nh = 48 if chk.thorough else 16
+    nh = 96 if chk.thorough else 16
     hists = []
     for i in range(nh):
         fe = "69" if i % 2 == 0 else "125"
@@ -671,10 +671,10 @@ def map_phase(chk, build, sc, cat, good):
         nops = chk.rng.choice((500, 500, 350, 200)) if chk.thorough else chk.rng.choice((500, 300, 200, 120))
         hists.append(gen_history(cat, chk, i + 1, fe, cfg, eqv, good, nops))
     # behaviours of the specification itself, walked by TLC, replayed on the real tables
-    scripts = tlc_scripts(sc, chk, 12 if chk.thorough else 3)
+    scripts = tlc_scripts(sc, chk, 24 if chk.thorough else 3)
     per = 4
     nscript_h = 0
-    for j in range(0, min(len(scripts), 48 if chk.thorough else 16), per):
+    for j in range(0, min(len(scripts), 96 if chk.thorough else 16), per):
         i = len(hists)
         fe = "69" if nscript_h % 2 == 0 else "125"
         cfg, eqv = CFGS[fe][(chk.seed + nscript_h // 2) % len(CFGS[fe])]
